@@ -864,7 +864,7 @@ def potential_history(ctx, rng, ncases):
 
         def new_settings():
             return WallGo.VeffDerivativeSettings(
-                temperatureVariationScale=rng.choice([0.1, 1.0, 1.1, 2.0]),
+                temperatureVariationScale=rng.choice([0.1, 1.0, 1.1, 2.0, 2]),  # int: coerced by configureDerivatives
                 fieldValueVariationScale=rng.choice(
                     [1.0, 0.5, [rng.choice([0.5, 1.0, 2.0]) for _ in range(nf)]]))
 
